@@ -46,6 +46,10 @@ func verifLoadIndex(s *Default, ctx context.Context, acceptStale bool) (*indexRe
 	verifCallKeys = nil
 	seen := map[string]bool{}
 	for _, k := range verifIdxKeys {
+		if k == "!null" {
+			resp.Filters = append(resp.Filters, nil)
+			continue
+		}
 		f := &indexRespFilter{DownloadURL: "https://lists.example/" + k + ".txt", Key: k}
 		if rest, ok := strings.CutPrefix(k, "!empty:"); ok {
 			f.Key, f.DownloadURL = rest, ""
@@ -57,7 +61,7 @@ func verifLoadIndex(s *Default, ctx context.Context, acceptStale bool) (*indexRe
 	// as the real loadIndex does after decoding
 	slices.SortStableFunc(resp.Filters, (*indexRespFilter).compare)
 	for _, f := range resp.Filters {
-		if f.validate() == nil && strings.HasPrefix(f.DownloadURL, "https://") && !seen[f.Key] {
+		if f != nil && f.validate() == nil && strings.HasPrefix(f.DownloadURL, "https://") && !seen[f.Key] {
 			seen[f.Key] = true
 			verifCallKeys = append(verifCallKeys, f.Key)
 		}
